@@ -439,6 +439,12 @@ class SciPyOptimizer(Optimizer):
             )
             compute_functions = compute_functions or speculative
             compute_gradients = compute_gradients or speculative
+            # A gradient evaluation needs the function values at the same
+            # point anyway: request and cache them together with the gradient
+            # so they are not evaluated again, and so that with split
+            # evaluations they are still evaluated separately.
+            if compute_gradients and self._cached_function is None:
+                compute_functions = True
             new_function, new_gradient = self._compute_functions_and_gradients(
                 variables,
                 compute_functions=compute_functions,
